@@ -500,7 +500,7 @@ func parseTestOutput(stdout string, stderr string, runError error, duration time
 	}
 
 	// Output and no execution error - PARSE OUTPUT - Ignore noTestOutput
-	if runError != nil && results.Failures() == 0 {
+	if runError != nil && results.Failures() == 0 && results.Errors() == 0 {
 		// Add a failure result to the test so it shows up in the final aggregation.
 		results.Add(failSuite("Test returned nonzero but reported no errors", "ReturnValue", runError.Error()).TestCases...)
 	} else if runError == nil && results.Failures() != 0 {
